@@ -1,0 +1,280 @@
+//! Verification hooks (cargo feature `verif-hooks`, off by default).
+//!
+//! Nothing in here is compiled unless the feature is enabled.  With the
+//! feature enabled and nothing configured the parser behaves exactly like the
+//! unhooked build: memo capacity 1024, key = (parser name, pointer,
+//! in_directive).
+
+use crate::AnyNode;
+use nom_recursive::RecursiveInfo;
+use std::cell::{Cell, RefCell};
+use std::collections::{HashMap, VecDeque};
+use std::sync::atomic::{AtomicUsize, Ordering};
+
+// ----------------------------------------------------------------------------
+// H2: packrat storage wrapper
+
+/// Extra key state handed over by the `#[packrat_parser]` generated code.
+pub type Extra = (bool, RecursiveInfo);
+
+type Key = (&'static str, *const u8, Extra);
+
+pub const DEFAULT_CAPACITY: usize = 1024;
+
+#[derive(Clone, Copy, Debug, Default, PartialEq, Eq)]
+pub struct MemoCounters {
+    pub gets: u64,
+    pub hits: u64,
+    pub misses: u64,
+    pub inserts: u64,
+    pub evictions: u64,
+    pub hits_with_different_guard_bits: u64,
+    pub clears: u64,
+}
+
+pub struct Storage {
+    size: Option<usize>,
+    flag_aware: bool,
+    map: HashMap<Key, (Option<(AnyNode, usize)>, RecursiveInfo)>,
+    keys: VecDeque<Key>,
+    pub counters: MemoCounters,
+}
+
+fn guard_of(ptr: *const u8, info: &RecursiveInfo) -> RecursiveInfo {
+    // The recursion flags are only meaningful at the position they were set
+    // for; elsewhere the recursive_parser prologue clears them.
+    if info.get_ptr() == ptr {
+        *info
+    } else {
+        RecursiveInfo::new()
+    }
+}
+
+impl Storage {
+    pub fn new(size: Option<usize>) -> Self {
+        Storage {
+            size,
+            flag_aware: false,
+            map: HashMap::new(),
+            keys: VecDeque::new(),
+            counters: MemoCounters::default(),
+        }
+    }
+
+    fn norm(&self, key: &Key) -> (Key, RecursiveInfo) {
+        let guard = guard_of(key.1, &(key.2).1);
+        let in_key = if self.flag_aware {
+            guard
+        } else {
+            RecursiveInfo::new()
+        };
+        ((key.0, key.1, ((key.2).0, in_key)), guard)
+    }
+
+    pub fn get(&mut self, key: &Key) -> Option<&Option<(AnyNode, usize)>> {
+        let (k, guard) = self.norm(key);
+        self.counters.gets += 1;
+        match self.map.get(&k) {
+            Some((v, g)) => {
+                self.counters.hits += 1;
+                if *g != guard {
+                    self.counters.hits_with_different_guard_bits += 1;
+                }
+                Some(v)
+            }
+            None => {
+                self.counters.misses += 1;
+                None
+            }
+        }
+    }
+
+    pub fn insert(&mut self, key: Key, value: Option<(AnyNode, usize)>) {
+        let (k, guard) = self.norm(&key);
+        if let Some(size) = self.size {
+            if self.keys.len() > size - 1 {
+                let old = self.keys.pop_front().unwrap();
+                self.map.remove(&old);
+                self.counters.evictions += 1;
+            }
+        }
+        self.counters.inserts += 1;
+        self.keys.push_back(k.clone());
+        self.map.insert(k, (value, guard));
+    }
+
+    pub fn clear(&mut self) {
+        self.counters.clears += 1;
+        self.map.clear();
+        self.keys.clear();
+    }
+
+    pub fn len(&self) -> usize {
+        self.map.len()
+    }
+}
+
+/// Capacity of the memo table of the calling thread (`None` = unbounded,
+/// `Some(0)` is treated as `Some(1)`).  Drops all entries.
+pub fn set_capacity(size: Option<usize>) {
+    let size = size.map(|x| x.max(1));
+    crate::PACKRAT_STORAGE.with(|s| {
+        let mut s = s.borrow_mut();
+        s.size = size;
+        s.map.clear();
+        s.keys.clear();
+    });
+}
+
+/// Put the left-recursion guard bits into the memo key (diagnostic mode).
+pub fn set_flag_aware_key(on: bool) {
+    crate::PACKRAT_STORAGE.with(|s| {
+        let mut s = s.borrow_mut();
+        s.flag_aware = on;
+        s.map.clear();
+        s.keys.clear();
+    });
+}
+
+pub fn memo_counters() -> MemoCounters {
+    crate::PACKRAT_STORAGE.with(|s| s.borrow().counters)
+}
+
+pub fn reset_memo_counters() {
+    crate::PACKRAT_STORAGE.with(|s| s.borrow_mut().counters = MemoCounters::default());
+}
+
+// ----------------------------------------------------------------------------
+// H3: events on the thread-local parser state
+
+#[derive(Clone, Copy, Debug, PartialEq, Eq, Hash)]
+pub enum EventKind {
+    Init,
+    BeginKeywords,
+    EndKeywords,
+    ClearVersion,
+    BeginDirective,
+    EndDirective,
+    ClearDirective,
+}
+
+#[derive(Clone, Copy, Debug, PartialEq, Eq)]
+pub struct Event {
+    pub kind: EventKind,
+    /// stack depth after the operation (0 for `Init`)
+    pub depth: usize,
+    /// global sequence number (orders events of different threads)
+    pub seq: usize,
+}
+
+thread_local!(
+    static LOG_ON: Cell<bool> = Cell::new(false);
+    static LOG: RefCell<Vec<Event>> = RefCell::new(Vec::new());
+);
+
+static SEQ: AtomicUsize = AtomicUsize::new(0);
+static YIELD_HOOK: AtomicUsize = AtomicUsize::new(0);
+
+/// Install a process-wide callback that is called at every hook event
+/// (`None` removes it).  Used to inject scheduling noise.
+pub fn set_yield_hook(f: Option<fn(EventKind)>) {
+    YIELD_HOOK.store(f.map(|f| f as usize).unwrap_or(0), Ordering::SeqCst);
+}
+
+pub fn set_event_log(on: bool) {
+    LOG_ON.with(|x| x.set(on));
+    LOG.with(|x| x.borrow_mut().clear());
+}
+
+pub fn take_event_log() -> Vec<Event> {
+    LOG.with(|x| std::mem::take(&mut *x.borrow_mut()))
+}
+
+pub(crate) fn event(kind: EventKind, depth: usize) {
+    let h = YIELD_HOOK.load(Ordering::Relaxed);
+    if h != 0 {
+        let f: fn(EventKind) = unsafe { std::mem::transmute(h) };
+        f(kind);
+    }
+    if LOG_ON.with(|x| x.get()) {
+        let seq = SEQ.fetch_add(1, Ordering::Relaxed);
+        LOG.with(|x| x.borrow_mut().push(Event { kind, depth, seq }));
+    }
+}
+
+#[derive(Clone, Debug, PartialEq, Eq, Hash)]
+pub struct Snapshot {
+    pub memo_entries: usize,
+    pub directive_depth: usize,
+    pub version_stack: Vec<String>,
+}
+
+/// State that outlives a call on the calling thread.
+pub fn snapshot() -> Snapshot {
+    Snapshot {
+        memo_entries: crate::PACKRAT_STORAGE.with(|s| s.borrow().len()),
+        directive_depth: crate::utils::verif_directive_depth(),
+        version_stack: crate::utils::verif_version_stack(),
+    }
+}
+
+// ----------------------------------------------------------------------------
+// H4: nesting of preprocess_str frames
+
+thread_local!(
+    static PP_DEPTH: Cell<usize> = Cell::new(0);
+    static PP_HIGH: Cell<usize> = Cell::new(0);
+    static PP_BOUND: Cell<usize> = Cell::new(0);
+    static PP_CALLS: Cell<u64> = Cell::new(0);
+);
+
+pub const PP_BOUND_MARKER: &str = "verif-hooks: preprocess_str frame bound exceeded";
+
+pub struct PpFrame;
+
+/// Called at the entry of `preprocess_str`; the returned guard leaves the
+/// frame when dropped.
+pub fn pp_enter() -> PpFrame {
+    let d = PP_DEPTH.with(|x| {
+        x.set(x.get() + 1);
+        x.get()
+    });
+    PP_CALLS.with(|x| x.set(x.get() + 1));
+    PP_HIGH.with(|x| {
+        if d > x.get() {
+            x.set(d)
+        }
+    });
+    let bound = PP_BOUND.with(|x| x.get());
+    if bound != 0 && d > bound {
+        PP_DEPTH.with(|x| x.set(x.get() - 1));
+        panic!("{}", PP_BOUND_MARKER);
+    }
+    PpFrame
+}
+
+impl Drop for PpFrame {
+    fn drop(&mut self) {
+        PP_DEPTH.with(|x| x.set(x.get().saturating_sub(1)));
+    }
+}
+
+/// 0 = no bound
+pub fn set_pp_frame_bound(n: usize) {
+    PP_BOUND.with(|x| x.set(n));
+}
+
+/// (current depth, high-water mark, number of frames entered) since the last reset
+pub fn pp_frames() -> (usize, usize, u64) {
+    (
+        PP_DEPTH.with(|x| x.get()),
+        PP_HIGH.with(|x| x.get()),
+        PP_CALLS.with(|x| x.get()),
+    )
+}
+
+pub fn reset_pp_frames() {
+    PP_DEPTH.with(|x| x.set(0));
+    PP_HIGH.with(|x| x.set(0));
+    PP_CALLS.with(|x| x.set(0));
+}
